@@ -11,7 +11,7 @@ PROP = "C10"
 LEVEL = "exploration"
 ENGINE = "lockstep"
 RULE = (
-    "case = Chooser-generated (scenario in plain/slow/preexisting/workflow, 2-4 submitter processes, "
+    "case = Chooser-generated (scenario in plain/slow/preexisting/workflow with 2-4 sequential submitter processes, or one asynchronous submitter (simulated pool, PydraFileLock) racing 1-2 sequential ones on the same workflow, "
     "trace granularity, burst length, chunked writes, stall faults of simulated 0.05-30 s); every "
     "pre-emption choice is seeded. Non-trivial = at least one context switch between two live "
     "submitters happened while one of them was between lock acquire and release; distinct = distinct "
@@ -26,7 +26,7 @@ ASSUMPTIONS = [
     "all submitters on one host and one tmpfs; clean_stale_locks=False as the docs require for a shared cache",
     "mutual exclusion itself is filelock's O_EXCL protocol (a dependency)",
 ]
-PROBES = ["contender_polled_lock", "stall_fired", "switch_while_lock_held", "switch_mid_result_write", "cache_hit_by_late_submitter"]
+PROBES = ["pydrafilelock_waited", "contender_polled_lock", "stall_fired", "switch_while_lock_held", "switch_mid_result_write", "cache_hit_by_late_submitter"]
 
 
 def plan(tier, seed):
@@ -53,9 +53,78 @@ def _expected(kind, x):
     return x + 3
 
 
+def _run_async_case(case, ch, workdir, res):
+    """One submitter runs the workflow through the asynchronous loop (cf worker on the
+    simulated pool, PydraFileLock polling with asyncio.sleep), the other is a separate
+    process running it through the sequential loop, both into one cache root."""
+    from checks import wfcommon as wc
+    from simlib import simloop
+
+    x = ch.randint(0, 5, "x")
+    cache = os.path.join(workdir, "cache")
+    os.makedirs(cache)
+    prof = wc.gen_profile(ch)
+    prof["n_procs"] = 2
+    env = simloop.SimEnv(ch, workdir, n_procs=2, fine=prof["fine"], uuid_salt=case["id"], profile=prof)
+    import pydra.engine.job as _jobmod
+
+    env.add_line_probe(_jobmod, "await asyncio.sleep(self.timeout)", "pydrafilelock_waited")
+    nother = ch.randint(1, 2, "n-other")
+    started = [False]
+
+    def go():
+        if not started[0]:
+            started[0] = True
+            for i in range(nother):
+                env.sim.spawn(f"xsub{i}", _submit, ("wf", cache, x, 2))
+        out = workload.Chain2(x=x)(cache_root=cache, worker="cf", n_procs=2)
+        return {"out": out.out}
+
+    status, val = env.run(go)
+    try:
+        sim = env.sim
+        # let the other submitters finish (fair phase)
+        sim.run(fair=True, max_steps=60_000)
+        res["steps"] = sim.steps
+        res["sim_s"] = sim.now - 1_700_000_000.0
+        res["digest"] = sim.digest()
+        res["faults"] = dict(sim.faults)
+        res["probes"] = dict(sim.probes)
+        res["sample"] = {"scenario": "wf-async-vs-sync", "other_submitters": nother, "x": x, "status": status}
+        res["nontrivial"] = True
+        sig = "wf-async"
+        exp = {"out": _expected("wf", x)}
+        if status == "hang":
+            violation(res, "liveness", sig, f"asynchronous submitter did not terminate: {val}")
+        elif status != "ok":
+            violation(res, "submitter-error", sig, f"asynchronous submitter raised {val.get('type')}: {val.get('msg', '')[:500]}")
+        elif val != exp:
+            violation(res, "wrong-output", sig, f"asynchronous submitter returned {val}, expected {exp}")
+        for i in range(nother):
+            p = sim.procs[f"xsub{i}"]
+            if p.state != "done":
+                violation(res, "liveness", sig, f"sequential submitter {p.name} did not terminate: {p!r}")
+            elif p.status != "ok":
+                violation(res, "submitter-error", sig, f"{p.name}: {p.result.get('type')}: {p.result.get('msg', '')[:500]}")
+            elif p.result != exp:
+                violation(res, "wrong-output", sig, f"{p.name} returned {p.result}, expected {exp}")
+        enters = {}
+        for _n, d in sim.events:
+            if d[0] == "enter":
+                enters[d[1]] = enters.get(d[1], 0) + 1
+        for k, n in enters.items():
+            if n != 1:
+                violation(res, "exec-count", sig, f"body {k} executed {n} times by {1 + nother} concurrent submitters of one workflow")
+    finally:
+        env.close()
+    return res
+
+
 def run_case(case, ch, workdir):
     res = blank_result()
-    scen = ch.pick(["plain", "slow", "preexisting", "wf", "slow", "wf"], "scenario")
+    scen = ch.pick(["plain", "slow", "preexisting", "wf", "slow", "wf", "async"], "scenario")
+    if scen == "async":
+        return _run_async_case(case, ch, workdir, res)
     kind = {"plain": "plain", "slow": "slow", "preexisting": "slow", "wf": "wf"}[scen]
     nsub = ch.randint(2, 4, "nsub")
     fine = ch.chance(1, 4, "fine")
